@@ -18,8 +18,15 @@ from pddl_plus_parser.models import State, PDDLFunction, GroundedPredicate, PDDL
 TMP = Path(os.environ.get("VERIF_WORK", "/verif/work")) / "C14" / "tmp"
 
 
+_FIXED_DIR = None     # set by sequence(same_paths): every file of the job is written to the SAME path again and again
+
+
 def write_tmp(text, suffix=".pddl"):
     TMP.mkdir(parents=True, exist_ok=True)
+    if _FIXED_DIR is not None:
+        p = Path(_FIXED_DIR) / ("file" + suffix)
+        p.write_text(text)
+        return p
     fd, name = tempfile.mkstemp(dir=str(TMP), suffix=suffix)
     with os.fdopen(fd, "w") as fh:
         fh.write(text)
@@ -368,7 +375,23 @@ def sequence(job):
        3. observe the SAME objects again, build and observe the 'after' states (their 'of' indices may point at the
           old ones: copies / successors of old states made now), compare all pairs over old + new;
        4. the mutation test on everything (it consumes the states).
-    The mutation test of phase 1 is run on a copy of each state, so that the state itself survives."""
+    The mutation test of phase 1 is run on a copy of each state, so that the state itself survives.
+    With same_paths every problem / domain / trajectory text of the job is written to the same file path again and
+    again (file.pddl, file.trajectory in a directory of the job), as a user does who re-writes one scratch file."""
+    global _FIXED_DIR
+    if job.get("same_paths"):
+        TMP.mkdir(parents=True, exist_ok=True)
+        _FIXED_DIR = tempfile.mkdtemp(dir=str(TMP))
+    try:
+        return _sequence(job)
+    finally:
+        if _FIXED_DIR is not None:
+            import shutil
+            shutil.rmtree(_FIXED_DIR, ignore_errors=True)
+            _FIXED_DIR = None
+
+
+def _sequence(job):
     ctx = Context(job["ctx"]) if job.get("ctx") else None
     built = []
     infos_b = build_all(job["before"], built, ctx)
